@@ -132,12 +132,12 @@ func c18InodeBody(t inodeType, blocksize int) {
 	vp.AllocLimit(uint64(2*72 + c18Slack))
 	if blocksize == 0 {
 		// KF-C18-30: block size 0 is accepted by parseSuperblock (log2 check passes for 0): division by zero
-		vp.KnownPanic("KF-C18-30", "squashfs.parseBasicFile)")
-		vp.KnownPanic("KF-C18-30", "squashfs.parseExtendedFile)")
+		vp.KnownPanic("KF-C18-30", "squashfs.parseBasicFile) | integer divide by zero")
+		vp.KnownPanic("KF-C18-30", "squashfs.parseExtendedFile) | integer divide by zero")
 	}
 	if blocksize == 1 {
 		// KF-C18-31: file size / block size >= 2^61: the block list length goes negative
-		vp.KnownPanic("KF-C18-31", "squashfs.parseFileBlockSizes)")
+		vp.KnownPanic("KF-C18-31", "squashfs.parseFileBlockSizes) | makeslice")
 	}
 	vp.NoPanic()
 	body, extra, err := parseInodeBody(b, blocksize, t)
@@ -290,7 +290,7 @@ func VP_C18_sqs_xattr_find() {
 	if cnt >= 3 {
 		// KF-C18-32: the read pointer is advanced by the absolute end of the previous attribute instead of
 		// being set to it: from the third attribute on it lies beyond the data
-		vp.KnownPanic("KF-C18-32", "squashfs.xAttrTable).find)")
+		vp.KnownPanic("KF-C18-32", "squashfs.xAttrTable).find) | slice bounds out of range")
 	}
 	vp.NoPanic()
 	m, err := x.find(0)
@@ -329,7 +329,7 @@ func VP_C18_sqs_read_metadata() {
 	vp.AllocCap(int(size) + 6)
 	vp.AllocLimit(uint64(2*size + c18Slack))
 	// KF-C18-33: byte offset (from an inode reference / directory entry) beyond the metadata block
-	vp.KnownPanic("KF-C18-33", "squashfs.FileSystem).readMetadata)")
+	vp.KnownPanic("KF-C18-33", "squashfs.FileSystem).readMetadata) | slice bounds out of range")
 	vp.NoPanic()
 	b, err := fs.readMetadata(dev, nil, first, bo, off, want)
 	vp.AllowPanic()
@@ -361,10 +361,10 @@ func c18FileRead(blocksize int64, buflen int) {
 	vp.AllocCap(buflen + 8)
 	vp.AllocLimit(limit)
 	if blocksize == 0 {
-		vp.KnownPanic("KF-C18-30", "squashfs.File).Read)")
+		vp.KnownPanic("KF-C18-30", "squashfs.File).Read) | integer divide by zero")
 	}
 	// KF-C18-34: fragment offset + tail size beyond the fragment block
-	vp.KnownPanic("KF-C18-34", "squashfs.FileSystem).readFragment)")
+	vp.KnownPanic("KF-C18-34", "squashfs.FileSystem).readFragment) | slice bounds out of range")
 	vp.NoPanic()
 	n, err := fl.Read(b)
 	vp.AllowPanic()
@@ -387,10 +387,10 @@ func VP_C18_sqs_dirent_uid() {
 	in := &inodeImpl{header: &inodeHeader{inodeType: inodeBasicFile, uidIdx: u, gidIdx: g}, body: &basicFile{}}
 	if u >= 2 {
 		// KF-C18-35: uid/gid index of an inode beyond the id table
-		vp.KnownPanic("KF-C18-35", "squashfs.FileSystem).directoryEntryFromInode)")
+		vp.KnownPanic("KF-C18-35", "squashfs.FileSystem).directoryEntryFromInode) | index out of range")
 	}
 	if g >= 2 {
-		vp.KnownPanic("KF-C18-35", "squashfs.FileSystem).directoryEntryFromInode)")
+		vp.KnownPanic("KF-C18-35", "squashfs.FileSystem).directoryEntryFromInode) | index out of range")
 	}
 	vp.NoPanic()
 	de, err := fs.directoryEntryFromInode("f", in, false)
@@ -456,9 +456,9 @@ func c18SqsRead(blocksize uint32, blocklog uint16, frags bool) {
 	vp.AllocLimit(limit)
 	if blocksize == 0 {
 		// KF-C18-30: block size 0: division by zero when sizing the cache
-		vp.KnownPanic("KF-C18-30", "filesystem/squashfs.Read)")
+		vp.KnownPanic("KF-C18-30", "filesystem/squashfs.Read) | integer divide by zero")
 	}
-	vp.KnownPanic("KF-C18-33", "squashfs.FileSystem).readMetadata)")
+	vp.KnownPanic("KF-C18-33", "squashfs.FileSystem).readMetadata) | slice bounds out of range")
 	vp.NoPanic()
 	a0 := c18AllocBegin()
 	fs, err := Read(dev, size, 0, 4096)
